@@ -245,4 +245,48 @@ func VerifC23Remove() {
 	verifrt.Assert(n == left, "C23.remove.nothing-else-changed")
 }
 
+// VerifC23RemoveHistory: removal, then a late operation is stored, then removal again (at any
+// height, also a lower one): after every removal exactly the operations that ended at or before
+// ITS height are gone and every other stored operation is still there.
+func VerifC23RemoveHistory() {
+	db, ops := verifC23World()
+	pst, err := db.st()
+	verifrt.Assert(err == nil, "C23.harness.storage-open")
+	removed := make([]bool, len(ops)+1)
+	check := func(h base.Height, all []*verifC23Op) {
+		for i := range all {
+			found, err := pst.Exists(newSuffrageExpelOperationKey(all[i].fact))
+			verifrt.Assert(err == nil, "C23.harness.exists-no-error")
+			ended := 1 ^ (uint64(h-all[i].fact.end) >> 63) // 1 when end <= h
+			if ended == 1 {
+				removed[i] = true
+			}
+			if removed[i] {
+				verifrt.Assert(!found, "C23.remove.removes-every-operation-that-ended-at-or-before-the-height(history)")
+			} else {
+				verifrt.Assert(found, "C23.remove.keeps-operations-that-end-after-the-height(history)")
+			}
+		}
+	}
+	h1 := verifC23Height()
+	verifrt.Assert(db.RemoveSuffrageExpelOperationsByHeight(h1) == nil, "C23.remove.no-error")
+	check(h1, ops)
+	// a late arriving operation (any range; a key no stored record has: distinct fact hash byte)
+	start := base.Height(int64(verifrt.NondetU64("late.start")))
+	end := base.Height(int64(verifrt.NondetU64("late.end")))
+	verifrt.Assume(start > 0)
+	verifrt.Assume(start <= end)
+	hb := verifrt.NondetBytes("late.facthash", 1)
+	for i := range ops {
+		verifrt.Assume(hb[0] != ops[i].fact.h.Bytes()[0])
+	}
+	late := &verifC23Op{idx: len(ops), fact: verifC23Fact{h: valuehash.NewBytes(hb), node: verifC23Addr(verifrt.NondetBytes("late.node", 1)), start: start, end: end}}
+	verifrt.Assert(db.SetSuffrageExpelOperation(late) == nil, "C23.harness.set-no-error")
+	all := append(append([]*verifC23Op{}, ops...), late)
+	h2 := verifC23Height()
+	verifrt.Assert(db.RemoveSuffrageExpelOperationsByHeight(h2) == nil, "C23.remove.no-error")
+	verifrt.Reach("C23.removehistory.second-removal")
+	check(h2, all)
+}
+
 var _ = bytes.Equal
